@@ -5,18 +5,22 @@ import re
 
 from .. import core, stages
 
-LEVEL = "translation_validation"
+LEVEL = "proof"
 CLAIM = ("The property's whole quantifier is enumerated: every subset of {plain, @bash, @fish, @zsh, @pwsh} command definitions (pairwise "
          "distinct command texts) x names {X, PATH, DIRECTORY} x reference position {top level, inside a word, through another definition, "
          "referenced twice} x 4 target shells. For each case the command symbols of the real library's automaton (vh) and the bodies of the "
          "_<cmd>_cmd_N functions of the four real scripts are compared with Spec.pick (Lean: the statement written outright: spec@S, else "
          "plain, else built-in PATH/DIRECTORY from the translator-regenerated table, else any word); deleting the definitions for other "
          "shells must leave the script byte-identical; the model's validate (Check.validate) is compared with the library's on the same "
-         "cases (expression, warnings). Theorem pick_eq_specialize (Props/C11.lean, when closed) relates the model's specialize pass to "
-         "Spec.pick for every grammar; until then the level is translation validation over the enumerated table + random grammars.")
-NOTE = ("Trusted: vh dump, the regex that extracts _<cmd>_cmd_N bodies from the four scripts, translate.py for the built-in table. "
-        "The theorem relating Check.specialize to Spec.pick for all grammars is open.")
-TECHNIQUE = "exhaustive enumeration of the definition-subset table against the Lean spec (Spec.pick) + stage-wise correspondence with the Lean model"
+         "cases (expression, warnings). Proved (Props/C11.lean, all grammars / shells / reference positions): choice_spec — the model of "
+         "specialize_nonterminals + get_specializations replaces every nonterminal reference of an expression by exactly what Spec.pick "
+         "prescribes (command of the @S definition with zsh's compadd flag, else left for expansion when a plain definition exists, else "
+         "the built-in command, else left as any word), whatever bookkeeping state it is in; other_shells_irrelevant, spec_wins, "
+         "plain_overrides_builtin, undefined_is_builtin_or_any over Spec.pick itself.")
+NOTE = ("The theorem is about the model's specialisation pass; the later passes (expansion of plain definitions, emission of the command "
+        "functions) are covered by the exhaustive table and by C02 / C04. Trusted: vh dump, the regex that extracts _<cmd>_cmd_N bodies "
+        "from the four scripts, translate.py for the built-in table.")
+TECHNIQUE = "Lean 4 theorem (model of the specialisation pass = Spec.pick at every reference) + exhaustive definition-subset table against Spec.pick on the real library and scripts + model correspondence"
 DESIGN_REF = "§3 C11"
 
 KINDS = ["plain", "bash", "fish", "zsh", "pwsh"]
